@@ -525,7 +525,7 @@ fn check_ros2(seed: u64) -> i32 {
         let chain: Vec<usize> = if n >= 2 && first != e && r.below(2) == 0 { vec![first, e] } else { vec![e] };
         let eoc = cbs[e];
         let npp: u64 = chain.iter().map(|&i| cbs[i].na(cbs[i].rtb)).sum();
-        let desc = format!("{{\"supply\": {}, \"limit\": {}, \"callbacks(t,j,c,rtb,kind,prio)\": {:?}, \"subchain\": {:?}}}", sdesc, limit,
+        let mut desc = format!("{{\"supply\": {}, \"limit\": {}, \"callbacks(t,j,c,rtb,kind,prio)\": {:?}, \"subchain\": {:?}}}", sdesc, limit,
                            cbs.iter().map(|c| (c.t, c.j, c.c, c.rtb, c.kind, c.prio)).collect::<Vec<_>>(), chain);
         macro_rules! cmp { ($name:expr, $got:expr, $exp:expr) => {{
             let got = view(&guarded(|| $got)); let exp = $exp;
@@ -576,7 +576,7 @@ fn check_ros2(seed: u64) -> i32 {
         let prefix_rbfs: Vec<_> = prefix.iter().map(to_rbf).collect();
         let mut full_rbfs = prefix_rbfs.clone(); full_rbfs.push(own_rbf.clone());
         let mut full = prefix.clone(); full.push(own);
-        let desc = format!("{{\"supply\": {}, \"limit\": {}, \"own(t,j,c)\": {:?}, \"interfering\": {:?}, \"chain_prefix\": {:?}, \"blocking\": {}}}", sdesc, limit, own, others, prefix, b);
+        desc = format!("{{\"supply\": {}, \"limit\": {}, \"own(t,j,c)\": {:?}, \"interfering\": {:?}, \"chain_prefix\": {:?}, \"blocking\": {}}}", sdesc, limit, own, others, prefix, b);
         // generic evaluator: busy window, then every demand step offset <= max_bw
         let ecrts = |dem: &dyn Fn(u64) -> u64, wb: &dyn Fn(u64) -> u64, w2: &dyn Fn(u64, u64) -> u64| -> Option<u64> {
             let max_bw = scan_sbf(&sbf, 0, limit, wb)?;
